@@ -1,13 +1,13 @@
 PROPERTY = "C14"
-ENCODED = ["linux::module_reader::ProcessMemory::{read (Slice), absolute}", "module_reader::section_header_with_name", "ModuleReader::read_name_from_strtab", "module_reader::build_id_from_bytes", "module_reader::is_executable_section",
+ENCODED = ["linux::module_reader::ProcessMemory::{read (Slice), absolute}", "module_reader::section_header_with_name", "ModuleReader::read_name_from_strtab", "module_reader::build_id_from_bytes", "module_reader::is_executable_section", "ModuleReader::{soname_from_program_headers, read_segment}, DynIter (program headers and the name reader scripted)",
            "thorough: BuildId::read_from_module / SoName::read_from_module (all strategies, goblin header/program-header/note/dynamic parsing) on the repo's concrete TINY_ELF"]
 BOUNDS = {"layer A": "crate-own arithmetic and lookups on directly constructed goblin section headers (every field symbolic) and symbolic 48-byte images; XOR fold for lengths 0, 1, 16, 17, 40; "
                      "string-table lookups: every out-of-range/overflowing (table offset, table size, name offset), and concrete in-range offsets over 4 symbolic bytes",
           "layer B (thorough)": "the repo's own 785-byte test image, every byte concrete; expected build id and SONAME computed by an independent reader (lib/elfmini.py) when the overlay is built"}
 OUTSIDE = ["goblin parsing of symbolic bytes (even 64-byte images exceeded 8-16 GB in the design round): 'for any byte image ... without panicking' is decided for the crate's own arithmetic only",
-           "the DT_SONAME/DT_STRTAB/DT_STRSZ selection in soname_from_program_headers and soname_from_sections (reached only through goblin parsing)", "32-bit and big-endian images", "every ELF file installed on the machine (sampling, not this family)",
+           "soname_from_sections and the build-id strategies on symbolic images (reached only through goblin parsing); soname_from_program_headers is decided with scripted program headers: one 64-byte dynamic section (DT_STRTAB, DT_STRSZ, DT_SONAME, DT_NULL), two PT_LOAD segments with a symbolic offset/address pair", "32-bit and big-endian images", "every ELF file installed on the machine (sampling, not this family)",
            "memory-vs-file agreement against a live process"]
-ASSUMPTIONS = ["sh_name <= u32::MAX (it is a u32 in the file, widened by goblin)", "name_offset < strtab_size for read_name_from_strtab (asserted by the function; both callers check it)", "std::fmt::format stubbed"]
+ASSUMPTIONS = ["sh_name <= u32::MAX (it is a u32 in the file, widened by goblin)", "name_offset < strtab_size for read_name_from_strtab (asserted by the function; both callers check it)", "std::fmt::format stubbed", "c14_soname_strtab_address_in_file: ModuleReader::read_program_headers returns scripted headers, ModuleReader::read_name_from_strtab is a logger (its own behaviour: c14_read_name_from_strtab_*)"]
 HARNESSES = [
     H("c14_module_reader::c14_slice_read", desc="ProcessMemory::Slice::read for all (offset, length)"),
     H("c14_module_reader::c14_section_header_with_name_dynstr", desc="section lookup by name, 2 symbolic headers", timeout=1200),
@@ -18,6 +18,7 @@ HARNESSES = [
     H("c14_module_reader::c14_build_id_fold_len16", desc="XOR fold, 16"), H("c14_module_reader::c14_build_id_fold_len17", desc="XOR fold, 17"),
     H("c14_module_reader::c14_build_id_fold_len40", desc="XOR fold, 40"),
     H("c14_module_reader::c14_is_executable_section", desc="executable-section predicate"),
+    H("c14_module_reader::c14_soname_strtab_address_in_file", desc="SONAME via program headers, FILE mode: DT_STRTAB (a virtual address) is translated to its file offset through the containing PT_LOAD", timeout=1200, est_gb=6),
     H("c14_module_reader::c14_tiny_elf_build_id", desc="TINY_ELF build id", timeout=3400, tier="thorough", est_gb=14, mem_gb=30),
     H("c14_module_reader::c14_tiny_elf_soname", desc="TINY_ELF soname", timeout=3400, tier="thorough", est_gb=14, mem_gb=30),
 ]
